@@ -66,6 +66,11 @@ def strip_ev(r):
 DIR_POOL = [b"d/", b"d2/", b"da/", b"d/e/", b"d/e2/", b"d/ee/", b"d/e/g/", b"D/", b"h/", b"hh/", b"h/i/", b"h2/", b"k/", b"kk/"]
 
 
+# recorded metadata of the directory entries: with and without a mode, an owner, a time stamp (a directory that records nothing
+# still has to be presented again after its contents)
+DIR_META = [(0o40755, None, T.T_B), (0o40755, None, T.T_B), (None, None, 0), (None, None, T.T_B), (0o40700, None, 0), (None, (1, 1), 0)]
+
+
 def presentation_case(rnd):
     """(members, entries): an archive of directories whose names are prefixes of one another's (d/ d2/ da/, d/e/ d/e2/ d/ee/),
     small stored files inside and outside them, and dangerous links; every path is unique, parents come before children.
@@ -99,14 +104,14 @@ def presentation_case(rnd):
     order = list(dirs)
     if rnd.random() < 0.7:
         for d in order:                          # each directory followed by (some of) its contents
-            ms.append(T.dir_member(rnd, d, rnd.choice([1, 2, 3]), 0o40755, None, T.T_B))
+            ms.append(T.dir_member(rnd, d, rnd.choice([1, 2, 3]), *rnd.choice(DIR_META)))
             ents.append(("dir", d, d))
             add_content(d)
             if rnd.random() < 0.3:
                 add_content(b"")
     else:
         for d in order:
-            ms.append(T.dir_member(rnd, d, rnd.choice([1, 2, 3]), 0o40755, None, T.T_B))
+            ms.append(T.dir_member(rnd, d, rnd.choice([1, 2, 3]), *rnd.choice(DIR_META)))
             ents.append(("dir", d, d))
         ds = [rnd.choice(order + [b""]) for _ in range(rnd.choice([2, 4, 6]))]
         for d in ds:
